@@ -253,10 +253,32 @@ def show(f):
 
 # ----------------------------------------------------------------------------- known findings
 def load_findings(pid):
+    """entries of known_findings.json for this property: {'id','property','shape','call_site','witness','what'}"""
     p = os.path.join(VERIF, "known_findings.json")
     if not os.path.exists(p): return []
     data = json.load(open(p))
     return [f for f in data.get("findings", []) if f.get("property") == pid]
+
+class Findings:
+    """open findings of one property, indexed by shape; counts the suppressed oracle failures"""
+    def __init__(self, pid):
+        self.items = load_findings(pid)
+        self.by_shape = {f["shape"]: f for f in self.items}
+        self.hits = {f["shape"]: 0 for f in self.items}
+        self.example = {}
+    def covers(self, shape, example=None):
+        if shape in self.by_shape:
+            self.hits[shape] += 1
+            if example is not None and shape not in self.example: self.example[shape] = example
+            return True
+        return False
+    def report(self, chk, still_fails):
+        """still_fails: shape -> bool/str, result of replaying the witness on the implementation"""
+        for f in self.items:
+            sf = still_fails.get(f["shape"])
+            state = "witness still fails" if sf else "witness no longer fails on this tree"
+            chk.known_finding("%s [%s] %s: witness %s -> %s (%s; %d case(s) of this shape in this run)" % (
+                f["id"], f["shape"], f.get("call_site", ""), f.get("witness", ""), f.get("what", ""), state, self.hits[f["shape"]]))
 
 # ----------------------------------------------------------------------------- verdicts and evidence
 class Check:
